@@ -1,0 +1,56 @@
+//! Verification hooks (add-only, compiled only with `--cfg ohkami_verif`).
+#![allow(missing_docs, non_snake_case)]
+
+use crate::{Ohkami, Request, Response};
+use crate::router::r#final::Router as FinalRouter;
+use std::{pin::Pin, sync::Arc};
+use std::sync::atomic::{AtomicUsize, Ordering};
+
+pub use crate::ohkami::routing::{HandlerSet, ByAnother, Dir};
+pub use crate::ohkami::routing::{__verif_apply_handlers as apply_handlers, __verif_apply_by as apply_by, __verif_apply_dir as apply_dir};
+pub use crate::ohkami::__verif_sync::{CtrlC, WaitGroup};
+
+pub fn handler_set(route: &'static str) -> HandlerSet { HandlerSet::new(route) }
+pub fn by_another(route: &'static str, o: Ohkami) -> ByAnother {
+    ByAnother { route: crate::router::segments::RouteSegments::from_literal(route), ohkami: o }
+}
+
+#[derive(Clone)]
+pub struct VRouter(Arc<FinalRouter>);
+pub fn finalize(o: Ohkami) -> VRouter { VRouter(Arc::new(o.into_router().finalize().0)) }
+
+pub struct VRequest(Pin<Box<Request>>);
+impl VRequest {
+    pub fn new() -> Self { Self(Box::pin(Request::init(crate::util::IP_0000))) }
+    pub fn clear(&mut self) { unsafe { self.0.as_mut().get_unchecked_mut() }.clear() }
+    pub async fn read(&mut self, r: &mut (impl crate::__rt__::AsyncRead + Unpin)) -> Result<Option<()>, Response> {
+        self.0.as_mut().read(r).await
+    }
+    pub fn get(&self) -> &Request { &self.0 }
+    pub async fn handle(&mut self, router: &VRouter) -> Response {
+        router.0.handle(unsafe { self.0.as_mut().get_unchecked_mut() }).await
+    }
+}
+pub fn declared_size(res: &Response) -> usize { res.__verif_declared_size() }
+pub fn complete(res: &mut Response) { res.complete() }
+/// returns true if the response asked for an upgrade
+pub async fn send(res: Response, w: &mut (impl crate::__rt__::AsyncWrite + Unpin)) -> bool {
+    !res.send(w).await.is_none()
+}
+pub async fn session(router: &VRouter, conn: crate::__rt__::TcpStream, ip: std::net::IpAddr) {
+    crate::session::Session::new(router.0.clone(), conn, ip).manage().await
+}
+
+// ---- scheduling points and trace events: no-ops unless a callback is installed ----
+static SCHED: AtomicUsize = AtomicUsize::new(0);
+static EMIT:  AtomicUsize = AtomicUsize::new(0);
+pub fn install_sched(f: fn(&'static str)) { SCHED.store(f as usize, Ordering::SeqCst) }
+pub fn install_emit(f: fn(&'static str, usize, usize)) { EMIT.store(f as usize, Ordering::SeqCst) }
+#[inline] pub fn sched(point: &'static str) {
+    let f = SCHED.load(Ordering::SeqCst);
+    if f != 0 { (unsafe { std::mem::transmute::<usize, fn(&'static str)>(f) })(point) }
+}
+#[inline] pub fn emit(kind: &'static str, a: usize, b: usize) {
+    let f = EMIT.load(Ordering::SeqCst);
+    if f != 0 { (unsafe { std::mem::transmute::<usize, fn(&'static str, usize, usize)>(f) })(kind, a, b) }
+}
